@@ -271,12 +271,26 @@ def inputs_for(g, rnd, n_exh_cap=400, exh_len=5, n_rand=40, n_mut=80, long_targe
 
 # ------------------------------------------------------------------ decorations and profiles
 
-def decorate(g, rnd, typed=0.25, dflt=0.25, vtypes=True, strings=0.2, ctx=0.0):
+# regex terms used inside grammars: mutually disjoint first-character sets, disjoint from the lower-case/punctuation char
+# terms, each deterministic, so that the union automaton needs no determinisation (D8 is C03/C04's subject, not the grammar checks')
+GRAMMAR_REGEXES = [('[0-9]+', 'num'), ('[1-9][0-9]*', None), ('[A-Z][A-Z0-9_]*', 'ident'), ('"[^"]*"', 'str'), ('#[^\\x0a]*', None), ('0x[0-9A-F]+', 'hex'), ("'(a|b)'", None), ('@+', 'ats')]
+
+def decorate(g, rnd, typed=0.25, dflt=0.25, vtypes=True, strings=0.2, ctx=0.0, regexes=0.0):
     """vary value types, default functors, typed terms, string terms, contextual functors (structure unchanged)"""
     g = clone(g)
     if vtypes:
         g.vtypes = [rnd.choice(['V', 'V', 'V', 'W', 'I']) for _ in g.nts]
     used = {t.text for t in g.terms}
+    if regexes:
+        firsts = set()
+        for j, t in enumerate(g.terms):
+            if t.kind == 'c' and rnd.random() < regexes:
+                pat, name = rnd.choice(GRAMMAR_REGEXES)
+                f = pat[0] if pat[0] != '[' else pat[1]
+                if f in firsts or (f in '01' and firsts & set('01')): continue
+                if any(u.text[0] == f or (f == '0' and u.text[0] in '0123456789') or (f == '1' and u.text[0] in '0123456789') or (f == 'A' and u.text[0].isupper()) for u in g.terms): continue
+                firsts.add(f); g.terms[j] = Term('r', pat, t.prec, t.assoc, name=(name if rnd.random() < 0.6 else None))
+    if any(t.kind == 'r' and t.text.startswith('[A-Z') for t in g.terms): strings = 0
     for j, t in enumerate(g.terms):
         if t.kind == 'c' and rnd.random() < strings:
             for _ in range(10):
@@ -294,6 +308,10 @@ def decorate(g, rnd, typed=0.25, dflt=0.25, vtypes=True, strings=0.2, ctx=0.0):
                 g.rules[i] = Rule(r.lhs, r.rhs, r.prec, 'd')
         elif ctx and rnd.random() < ctx:
             g.rules[i] = Rule(r.lhs, r.rhs, r.prec, 'x')
+        elif vt in ('V', 'W') and rnd.random() < 0.12:
+            # helper functor _eK: the K-th right-side value is passed through (needs a nonterminal of the same value type at K)
+            ks = [k for k, sy in enumerate(r.rhs) if sy[0] == 'n' and g.vtypes[sy[1]] == vt and k < 9]
+            if ks: g.rules[i] = Rule(r.lhs, r.rhs, r.prec, 'e%d' % (rnd.choice(ks) + 1))
     g.note += '+decorated'
     return g
 
